@@ -236,6 +236,7 @@ func C12Scenarios(tier string) []*Scenario {
 	}
 	out = append(out, c12StringSettings(&n)...)
 	out = append(out, c12WrapUsing(&n)...)
+	out = append(out, c12RelatedZeroKeys(&n)...)
 	out = append(out, c12CtxRegex(&n)...)
 	out = append(out, nestedScenarios(80000, "C12")...)
 	out = append(out, mixedSkipCopyRecursive(85000, "C12")...)
@@ -736,6 +737,81 @@ func c12CtxRegex(n *int) []*Scenario {
 					sc.Forced, sc.ForcedReject = true, "parameter ctxa is not a context: two source parameters"
 				}
 				out = append(out, sc)
+			}
+		}
+	}
+	return out
+}
+
+// c12RelatedZeroKeys: update:ignoreZeroValueField and its three specific forms written as two lines with different keys
+// at every pair of levels (and in both orders inside one level). The lines apply in the order command line, converter,
+// method (source order inside a level): the general key sets all three categories, a specific key sets one.
+func c12RelatedZeroKeys(n *int) []*Scenario {
+	type zk struct {
+		key   string
+		apply func(s *model.Settings, v bool)
+	}
+	keys := []zk{
+		{"update:ignoreZeroValueField", func(s *model.Settings, v bool) { s.ZeroBasic, s.ZeroStruct, s.ZeroNillable = v, v, v }},
+		{"update:ignoreZeroValueField:basic", func(s *model.Settings, v bool) { s.ZeroBasic = v }},
+		{"update:ignoreZeroValueField:struct", func(s *model.Settings, v bool) { s.ZeroStruct = v }},
+		{"update:ignoreZeroValueField:nillable", func(s *model.Settings, v bool) { s.ZeroNillable = v }},
+	}
+	levels := []string{"cli", "converter", "method"}
+	u := space.StdUniverse()
+	probe := updateProbe(u)
+	var out []*Scenario
+	for la := 0; la < 3; la++ {
+		for lb := la; lb < 3; lb++ {
+			for _, ka := range keys {
+				for _, kb := range keys {
+					if ka.key == kb.key {
+						continue
+					}
+					for _, va := range []bool{true, false} {
+						for _, vb := range []bool{true, false} {
+							*n++
+							id := fmt.Sprintf("%05d", *n)
+							val := map[bool]string{true: " yes", false: " no"}
+							sc := &Scenario{ID: "Z" + id, PropGen: "C12", PropVal: "C12", Test: "Convert", Funcs: map[string]string{},
+								Desc: map[string]any{"class": "related-keys " + levels[la] + ">" + levels[lb], "first": ka.key + val[va] + "@" + levels[la], "second": kb.key + val[vb] + "@" + levels[lb]}}
+							conv := &model.Converter{OutPkg: "conv/generated", LitPkg: "conv"}
+							sc.Conv = conv
+							var mlines []string
+							var eff model.Settings
+							place := func(level int, k zk, v bool) {
+								line := k.key + val[v]
+								switch level {
+								case 0:
+									sc.Global = append(sc.Global, line)
+								case 1:
+									sc.ConvLines = append(sc.ConvLines, line)
+								case 2:
+									mlines = append(mlines, line)
+								}
+							}
+							place(la, ka, va)
+							place(lb, kb, vb)
+							// resolve in level order; la <= lb and the first line is written first inside a level
+							if la < 2 {
+								ka.apply(&conv.Set, va)
+							}
+							if lb < 2 {
+								kb.apply(&conv.Set, vb)
+							}
+							eff = conv.Set
+							if la == 2 {
+								ka.apply(&eff, va)
+							}
+							if lb == 2 {
+								kb.apply(&eff, vb)
+							}
+							probe(sc, id, "", mlines, eff)
+							sc.Mode = "update"
+							out = append(out, sc)
+						}
+					}
+				}
 			}
 		}
 	}
